@@ -81,6 +81,71 @@ func (nilCall) Common() *ssa.CallCommon { return &ssa.CallCommon{} }
 
 func init() {
 	register(&Property{
+		ID: "C35",
+		Explanation: "Decides the shape of the retry wrapper: (retry-save) inside the retried operation of retry.Backend.Save the backend Save is reachable only through the success edge of rd.Rewind() (every attempt starts at the beginning of the data), and from a failed attempt every way out passes the HasAtomicReplace==true edge or a Remove of the same handle — no condition other than atomic replace may skip the removal of the partial file — and the failure is reported (nil only if the backend's Save returned nil); (list-dedup) in retry.Backend.List the caller's callback is invoked only on the 'name not yet reported' edge, the name is inserted into the same set on every path through the invocation, and the set is created once per List call outside the retried operation; (permanent) the operation wrapper converts the operation's error into backoff.Permanent once the permanent-error attempts are used up and consults Backend.IsPermanentError, Stat treats not-exist as permanent, and Save/Load/Stat/Remove/List are all overridden and perform their backend call only inside be.retry. Not decided: the outcome under every fault sequence and retry budget (behaviour of the backoff library).",
+		Assumptions: append([]string{"github.com/cenkalti/backoff stops retrying on backoff.Permanent errors"}, commonAssumptions...),
+		Technique:   "static analysis: CFG edge cuts inside the retried closures + wrapper-method coverage (go/ssa, go/types)",
+		Run: func(c *eng.Ctx) {
+			ruleRetrySave(c)
+			ruleRetryListDedup(c)
+			ruleRetryPermanent(c)
+		},
+		Controls: []Control{
+			{Name: "retry-without-rewind", File: "internal/backend/retry/backend_retry.go",
+				Old: "		err := rd.Rewind()\n		if err != nil {\n			return err\n		}\n\n		err = be.Backend.Save(ctx, h, rd)", New: "		err := be.Backend.Save(ctx, h, rd)", Rule: "retry-save"},
+			{Name: "keep-partial-file", File: "internal/backend/retry/backend_retry.go",
+				Old: "			rerr := be.Backend.Remove(ctx, h)\n			if rerr != nil {\n				debug.Log(\"Remove(%v) returned error: %v\", h, rerr)\n			}\n", New: "", Rule: "retry-save"},
+			{Name: "list-reports-duplicates", File: "internal/backend/retry/backend_retry.go",
+				Old: "			if _, ok := listed[fi.Name]; ok {\n				return nil\n			}\n", New: "", Rule: "list-dedup"},
+			{Name: "list-set-per-attempt", File: "internal/backend/retry/backend_retry.go",
+				Old: "	err := be.retry(listCtx, fmt.Sprintf(\"List(%v)\", t), func() error {\n", New: "	err := be.retry(listCtx, fmt.Sprintf(\"List(%v)\", t), func() error {\n		listed = make(map[string]struct{})\n", Rule: "list-dedup"},
+		},
+	})
+	register(&Property{
+		ID: "C37",
+		Explanation: "Decides the structure that enforces the limits: (token-paired) every backend.Backend method that takes a Handle (Save, Load, Stat, Remove) is overridden by connectionLimitedBackend, and in each the forwarded call is reachable only after `defer be.typeDependentLimit(h.Type)()` — the token is taken before the operation and released at every exit — with the limit chosen by the handle's own Type; (lock-bypass) in typeDependentLimit GetToken and the freeze lock are reachable only on the t != LockFile edge, a return without any blocking call exists for lock files, the token is taken before waiting on the freeze lock, the freeze lock is only passed through (deferred Unlock), and the non-lock branch returns sem.ReleaseToken after GetToken; Freeze/Unfreeze acquire/release the same freeze lock; the semaphore is a channel of capacity Properties().Connections where GetToken deposits and ReleaseToken withdraws exactly one token. Not decided: fairness and liveness under contention.",
+		Assumptions: append([]string{"a buffered channel of capacity n admits at most n undelivered sends"}, commonAssumptions...),
+		Technique:   "static analysis: interface-method coverage + CFG cuts on the defer/acquire pattern (go/ssa, go/types)",
+		Run: func(c *eng.Ctx) {
+			ruleSemaWrapped(c)
+			ruleLockBypass(c)
+		},
+		Controls: []Control{
+			{Name: "stat-without-token", File: "internal/backend/sema/backend.go",
+				Old: "	defer be.typeDependentLimit(h.Type)()\n\n	if ctx.Err() != nil {\n		return backend.FileInfo{}, ctx.Err()\n	}", New: "	if ctx.Err() != nil {\n		return backend.FileInfo{}, ctx.Err()\n	}", Rule: "token-paired"},
+			{Name: "lock-files-wait-for-freeze", File: "internal/backend/sema/backend.go",
+				Old: "	if t == backend.LockFile {\n		return func() {}\n	}\n	be.sem.GetToken()\n	be.freezeLock.Lock()\n	defer be.freezeLock.Unlock()", New: "	be.freezeLock.Lock()\n	defer be.freezeLock.Unlock()\n	if t == backend.LockFile {\n		return func() {}\n	}\n	be.sem.GetToken()", Rule: "lock-bypass"},
+			{Name: "token-released-immediately", File: "internal/backend/sema/backend.go",
+				Old: "	defer be.typeDependentLimit(h.Type)()\n\n	if ctx.Err() != nil {\n		return ctx.Err()\n	}\n\n	return be.Backend.Remove(ctx, h)", New: "	be.typeDependentLimit(h.Type)()\n\n	if ctx.Err() != nil {\n		return ctx.Err()\n	}\n\n	return be.Backend.Remove(ctx, h)", Rule: "token-paired"},
+		},
+	})
+	register(&Property{
+		ID: "C39",
+		Explanation: "Decides why dry runs and lock-free reads cannot modify the repository: (dryrun-total) dryrun.Backend embeds nothing, declares every backend.Backend method itself and no function of package dryrun calls Save/Remove/Delete/Warmup* on a backend; Repository has exactly one backend-typed field, assigned only by New, UseCache and SetDryRun, and SetDryRun wraps it in dryrun.New; (lock-xor-dry) internalOpenWithLocked returns success only after LockRepo succeeded or SetDryRun ran, SetDryRun only on the dryRun edge, and no success return skips both; (dry-flag-forwarded) the struct fields bound to a flag named \"dry-run\" are found from the flag registrations; every open call of cmd/restic is classified (dry-run flag forwarded / dry-run keeps the lock / --no-lock / always locked) and every write command's dry-run field reaches its open call; (dry-mutation-guard) forget and prune, which keep the lock in dry-run mode, reach their mutations (ParallelRemove; deleteFiles, rewriteIndexFiles, WithBlobUploader, SaveFallback in PrunePlan.Execute) only on the DryRun==false edge and forward the flag to repository.PruneOptions and to forget --prune; (backend-mutation-callers, backend-save-callers) Save/Remove/Delete of a backend are called only from classified sites of package repository and from wrappers inside the same method; compile-fail witnesses show commands can write only snapshot files. Not decided: byte-for-byte equality of the repository (no execution).",
+		Assumptions: commonAssumptions,
+		Technique:   "static analysis: wrapper totality (method sets), flag-to-argument value flow, CFG edge cuts, call-site enumeration, compile-fail witnesses",
+		AllConfigs:  true,
+		Run: func(c *eng.Ctx) {
+			ruleDryrunTotal(c)
+			ruleLockXorDry(c)
+			ruleDryFlagForwarded(c)
+			ruleDryMutationGuard(c)
+			ruleBackendMutationCallers(c)
+			ruleBackendSaveCallers(c)
+			ruleWriteableWitness(c, "writeable-witness")
+		},
+		Controls: []Control{
+			{Name: "dryrun-forwards-remove", File: "internal/backend/dryrun/dry_backend.go",
+				Old: "func (be *Backend) Remove(_ context.Context, _ backend.Handle) error {\n	return nil\n}", New: "func (be *Backend) Remove(ctx context.Context, h backend.Handle) error {\n	if h.Type == backend.LockFile {\n		return be.b.Remove(ctx, h)\n	}\n	return nil\n}", Rule: "dryrun-total"},
+			{Name: "rewrite-ignores-dry-run-flag", File: "cmd/restic/cmd_rewrite.go",
+				Old: "		ctx, repo, unlock, err = openWithAppendLock(ctx, gopts, opts.DryRun, printer)", New: "		ctx, repo, unlock, err = openWithAppendLock(ctx, gopts, false, printer)", Rule: "dry-flag-forwarded"},
+			{Name: "prune-dry-run-deletes-unreferenced", File: "internal/repository/prune.go",
+				Old: "func (plan *PrunePlan) Execute(ctx context.Context, printer restic.Printer) error {\n	if plan.opts.DryRun {", New: "func (plan *PrunePlan) Execute(ctx context.Context, printer restic.Printer) error {\n	if len(plan.removePacksFirst) != 0 {\n		_ = deleteFiles(ctx, true, &internalRepository{plan.repo}, plan.removePacksFirst, restic.PackFile, printer)\n		plan.removePacksFirst = nil\n	}\n	if plan.opts.DryRun {", Rule: "dry-mutation-guard"},
+			{Name: "open-unlocked-and-not-dry", File: "cmd/restic/lock.go",
+				Old: "	} else {\n		repo.SetDryRun()\n	}", New: "	}", Rule: "lock-xor-dry"},
+		},
+	})
+	register(&Property{
 		ID: "C38",
 		Explanation: "Decides the shape that keeps a cache in any state from changing what restic reads: (atomic-save) Cache.save publishes a cache file only by renaming a completely copied and closed temporary created in the same directory, removes the temporary on errors and hands the final name to nothing else that could create it; (backend-first) cacheBackend.Save/Remove touch the cache only behind the success edge of the wrapped backend's operation and report success only after it, and a failed download into the cache removes the partial entry; (forget-and-retry) LoadRaw, LoadBlob, listPack and checkPack each drop the cached copy (cache.Forget, or no cache configured) between a failed/mismatching attempt and the single retry; (nil-only-after-hash, C02) every load path returns success only after the hash comparison, so a stale or corrupted cache file is either detected and replaced or reported; (cache-locks) cacheBackend.inProgress is only touched under inProgressMutex. Not decided: concurrent clearing of the cache directory by another process at arbitrary points (file-system races).",
 		Assumptions: append([]string{"os.Rename within one directory is atomic"}, commonAssumptions...),
